@@ -1477,3 +1477,130 @@ def real_poly_in(r, atom_id):
         else:
             return None
     return out
+
+
+# ---------------------------------------------------------------------------------------- numeric evaluation of normal forms
+class NotEvaluable(Exception):
+    pass
+
+
+def evalf(r, env, _memo=None):
+    """complex floating value of a normal form; env: {atom id: number}.  Used only to exhibit a witness point at which two
+    forms already known to be structurally different take macroscopically different values."""
+    import cmath
+    import math
+    memo = {} if _memo is None else _memo
+
+    def atom(k):
+        if k in memo:
+            return memo[k]
+        a = TABLE.atoms[k]
+        if k in env:
+            v = complex(env[k])
+        elif a.kind == 'sym':
+            if a.name == 'pi':
+                v = complex(math.pi)
+            else:
+                raise NotEvaluable(a.name)
+        elif a.kind == 'fn':
+            n = a.name
+            if n == 'def':
+                v = evalf(a.args[0], env, memo)
+            else:
+                args = [evalf(x, env, memo) if isinstance(x, Rat) else None for x in a.args]
+                if any(x is None for x in args):
+                    raise NotEvaluable(n)
+                re = [x.real for x in args]
+                if n == 'sqrt':
+                    v = cmath.sqrt(args[0])
+                elif n == 'atan':
+                    v = complex(math.atan(re[0]))
+                elif n == 'atan2':
+                    v = complex(math.atan2(re[0], re[1]))
+                elif n == 'asin':
+                    v = complex(math.asin(max(-1.0, min(1.0, re[0]))))
+                elif n == 'acos':
+                    v = complex(math.acos(max(-1.0, min(1.0, re[0]))))
+                elif n == 'log':
+                    v = cmath.log(args[0])
+                elif n == 'abs':
+                    v = complex(abs(args[0]))
+                elif n == 'exp':
+                    v = cmath.exp(args[0])
+                elif n == 'pow':
+                    v = args[0] ** args[1]
+                elif n == 'int':
+                    v = complex(int(re[0]))
+                elif n == 'floordiv':
+                    v = complex(re[0] // re[1])
+                elif n == 'mod':
+                    v = complex(re[0] % re[1])
+                elif n in ('lt', 'le', 'gt', 'ge', 'eq', 'ne'):
+                    v = complex(1 if {'lt': re[0] < re[1], 'le': re[0] <= re[1], 'gt': re[0] > re[1], 'ge': re[0] >= re[1],
+                                      'eq': re[0] == re[1], 'ne': re[0] != re[1]}[n] else 0)
+                elif n == 'and':
+                    v = complex(1 if all(x != 0 for x in args) else 0)
+                elif n == 'or':
+                    v = complex(1 if any(x != 0 for x in args) else 0)
+                elif n == 'not':
+                    v = complex(0 if args[0] != 0 else 1)
+                elif n == 'truthy':
+                    v = complex(1 if args[0] != 0 else 0)
+                elif n == 'ite':
+                    v = args[1] if args[0] != 0 else args[2]
+                else:
+                    raise NotEvaluable(n)
+        else:
+            raise NotEvaluable(a.kind)
+        memo[k] = v
+        return v
+
+    def poly(p):
+        tot = 0j
+        for (a, e), c in p.t.items():
+            term = complex(float(c.re), float(c.im))
+            for k, x in a:
+                term *= atom(k) ** x
+            if e:
+                ex = 0j
+                for ak, ec in e:
+                    t2 = complex(float(ec.re), float(ec.im))
+                    for k, x in ak:
+                        t2 *= atom(k) ** x
+                    ex += t2
+                term *= cmath.exp(ex)
+            tot += term
+        return tot
+    d = poly(r.den)
+    if d == 0:
+        raise NotEvaluable('division by zero')
+    return poly(r.num) / d
+
+
+def numeric_witness(a, b, ranges, trials=6, rel=1e-8):
+    """sample points (deterministic) of the free symbols; returns (point, value a, value b) when at two or more sampled points the
+    values differ by more than rel (relative) - far above the rounding noise of evaluating the forms in double precision - else None.
+    ranges: {symbol name: (lo, hi)}."""
+    ids = sorted(set(a.atoms(deep=True)) | set(b.atoms(deep=True)))
+    syms = [TABLE.atoms[k] for k in ids if TABLE.atoms[k].kind == 'sym' and TABLE.atoms[k].name != 'pi']
+    if any(s.name not in ranges for s in syms):
+        return None
+    found = None
+    hits = 0
+    for t in range(trials):
+        env = {}
+        for j, s in enumerate(syms):
+            lo, hi = ranges[s.name]
+            # low-discrepancy deterministic fractions
+            frac = ((t + 1) * 0.6180339887498949 + (j + 1) * 0.7548776662466927) % 1.0
+            env[s.id] = lo + (hi - lo) * frac
+        try:
+            va, vb = evalf(a, env), evalf(b, env)
+        except (NotEvaluable, ZeroDivisionError, OverflowError, ValueError):
+            continue
+        scale = max(abs(va), abs(vb), 1e-30)
+        if abs(va - vb) > rel * scale:
+            hits += 1
+            if found is None:
+                found = (dict((s.name, env[s.id]) for s in syms), va, vb)
+    return found if hits >= 2 else None
